@@ -305,12 +305,14 @@ def liftfloat(x):
         raise ValueError("non-finite float in symbolic run: %r" % x)
     if not LIFT_FLOATS:
         return Fraction(x)
+    if x != 0 and abs(x) < 1e-6:
+        return Fraction(x)          # tiny constants (tolerances such as 2**-26): exact dyadic value
     f = Fraction(x).limit_denominator(1000)
     if abs(float(f) - x) <= 1e-14 * max(1.0, abs(x)):
         return f
     x2 = x * x
     f2 = Fraction(x2).limit_denominator(1000)
-    if abs(float(f2) - x2) <= 1e-14 * max(1.0, x2):
+    if f2 != 0 and abs(float(f2) - x2) <= 1e-14 * max(1.0, x2):
         if f2 not in _SQ:
             _SQ[f2] = z3.Real("sqrt_%d_%d" % (f2.numerator, f2.denominator))
         return _SQ[f2] if x > 0 else -_SQ[f2]
@@ -496,7 +498,12 @@ class S:
         return S(r_div(num.re, d), r_div(num.im, d))
 
     def __rtruediv__(self, o):
-        return S.of(o) / self
+        if isinstance(o, np.ndarray) and o.shape != ():
+            return NotImplemented
+        try:
+            return S.of(o) / self
+        except TypeError:
+            return NotImplemented
 
     def __pow__(self, k):
         if isinstance(k, S) and k.is_concrete():
@@ -508,6 +515,8 @@ class S:
             for _ in range(int(k)):
                 out = out * self
             return out
+        if isinstance(k, (int, np.integer)) and -12 <= int(k) < 0:
+            return S(1) / (self ** (-int(k)))
         if self.is_concrete() and isinstance(k, (int, float, Fraction)):
             return S.of(complex(self) ** float(k))
         raise TypeError("unsupported symbolic power %r" % (k,))
